@@ -141,8 +141,11 @@ def resolve_all(
     if isinstance(x, list):
         x = [resolve_all(v, default=default, _path=_path) for v in x]
     elif isinstance(x, dict):
-        for k, v in x.items():
-            x[k] = resolve_all(v, default=default, _path=_path)
+        # A new dictionary is built: writing the resolved values back into the
+        # (cached) parsed object would link parsed objects directly to each
+        # other, and repeated calls from different starting points could close
+        # a cycle that no reference guard can see any more.
+        x = {k: resolve_all(v, default=default, _path=_path) for k, v in x.items()}
     return x
 
 
